@@ -287,6 +287,35 @@ func (a ent) String() string {
 	return fmt.Sprintf("%d %d %d %s", a.count, a.min, a.max, s)
 }
 
+func formatMem(agg discovery.Agg) string {
+	conv := func(a sharedDiscovery.EndpointAgg) ent {
+		x := ent{count: int64(a.Count), min: a.MinTime, max: a.MaxTime, st: map[int]int64{}}
+		for c, n := range a.StatusCodes {
+			x.st[c] = int64(n)
+		}
+		return x
+	}
+	var e, c, it []string
+	for k, v := range agg.Endpoints {
+		e = append(e, fmt.Sprintf("ep %s %s", proto.Enc(k.Method+":::"+k.URL), conv(v)))
+	}
+	for tag, m := range agg.Consumers {
+		for k, v := range m {
+			c = append(c, fmt.Sprintf("ce %s %s %s", proto.Enc(tag), proto.Enc(k.Method+":::"+k.URL), conv(v)))
+		}
+	}
+	for k, v := range agg.Interceptors {
+		it = append(it, fmt.Sprintf("it %s %s %d", proto.Enc(k.Type), proto.Enc(k.Version), v.Timestamp))
+	}
+	sort.Strings(e)
+	sort.Strings(c)
+	sort.Strings(it)
+	parts := append([]string{"mem"}, e...)
+	parts = append(parts, c...)
+	parts = append(parts, it...)
+	return strings.Join(parts, " ")
+}
+
 func methodOf(key string) string {
 	if i := strings.Index(key, ":::"); i >= 0 {
 		return key[:i]
@@ -484,6 +513,32 @@ func exec(c proto.Case, o *proto.Out) []string {
 				ConsumerTag: kvS(w, "c"), Internal: kvI(w, "int") != 0, RequestID: fmt.Sprintf("r%d", len(recs)),
 			})
 			outs[i] = "ok"
+		case "runmem":
+			// in-memory path: GetUpdatedAggregations batch by batch, no state file; timestamps reported EXACTLY
+			cs, _ := proto.KV(w, "cuts")
+			tree, err := r.tree()
+			if err != nil {
+				outs[i] = "err:build"
+				continue
+			}
+			agg := discovery.Agg{}
+			for _, sg := range segsOf(recs, parseList(cs), nil, nil, nil, nil) {
+				if len(sg.recs) == 0 {
+					continue
+				}
+				var logs []discovery.AccessLog
+				for _, rec := range sg.recs {
+					if !rec.Internal {
+						logs = append(logs, discovery.AccessLog(rec))
+					}
+				}
+				agg, err = discovery.GetUpdatedAggregations(agg, logs, tree)
+				if err != nil {
+					panic(err)
+				}
+			}
+			outs[i] = formatMem(agg)
+			o.Count("run-in-memory")
 		case "run":
 			cs, _ := proto.KV(w, "cuts")
 			rs, _ := proto.KV(w, "restarts")
